@@ -14,7 +14,7 @@ Uses the same models and drivers as C05 (StopProtocol/StopAbs, harness/cmd/stopw
 import json
 import random
 import vlib
-from checks import c05, c01
+from checks import c05, c01, c12
 
 LEVEL = "model_checking"
 PANICS = ["panic_nil", "panic_err", "panic_str", "panic_rt", "panic_struct"]
@@ -54,21 +54,31 @@ def run(ctx):
                 st["how"] = "panic"
     lh, lo = c01.execute(ctx, lscripts)
     ok2, unex2 = c01.judge(ctx, lscripts, lh, lo)
+    # HTTP API handlers: the panic cells of the ApiAuth table (every endpoint function type, handlers that panic
+    # before and after writing their status line, 5 panic value classes, GET/POST, dev mode on/off) on the real server
+    _tr, groups = c12.table(ctx, False)
+    pgroups = [g for g in groups if g["name"] == "panic"]
+    ascripts = c12.build_scripts(ctx, pgroups, [], 250)
+    ah, ao, _infra = c12.execute(ctx, ascripts)
+    ok3, unex3 = c12.judge(ctx, ascripts, ah, ao)
+    napi = sum(1 for h in ah for e in h if e.get("e") == "apipanic")
     npan = len({vlib.sha(s) for s in scripts if any(it["out"].startswith("panic") for it in s["items"])}) + \
-        len({vlib.sha(s) for s in lscripts})
+        len({vlib.sha(s) for s in lscripts}) + napi
     vlib.finish(ctx, LEVEL, {
-        "traces_validated_against_impl": ok1 + ok2,
-        "evaluations": len(scripts) + len(lscripts), "distinct_nontrivial": npan,
+        "traces_validated_against_impl": ok1 + ok2 + ok3,
+        "evaluations": len(scripts) + len(lscripts) + napi, "distinct_nontrivial": npan,
+        "api_panic_probes": napi,
         "rule": "work-item scripts: StopProtocol behaviours (stop after work) with outcomes drawn from 5 panic classes/ok/err "
                 "plus the full table kind x panic class x {alone, next to a healthy item}; lifecycle scripts: Lifecycle "
                 "behaviours whose failing callbacks panic; non-trivial = contains a panicking item/routine; distinct by hash",
         "work_item_scripts": len(scripts), "lifecycle_scripts": len(lscripts),
-        "histories_unexamined_after_rejections": unex1 + unex2,
+        "histories_unexamined_after_rejections": unex1 + unex2 + unex3,
         "samples": scripts[-1:] + lscripts[:1] + ([hists[-1]] if hists else []),
         "exhaustive": False,
     }, ["one driver process per script; a dead process is a violation (crash signature)",
         "service worker back-off 10 ms, restart awaited 300 ms",
-        "API handler panics are covered by the C12/C06 api driver when present"])
+        "API handler panics: harness/cmd/apiauth (real server on loopback), judged by ApiAuthTrace: 500 unless the status line was "
+        "already written, panic reported on the module error channel, server answers a probe afterwards"])
 
 
 def replay(ctx, path):
